@@ -110,9 +110,40 @@ pub fn replay<T: Sc>(calls: &[(String, Vec<String>, i64)]) -> Result<Vec<String>
     }
 }
 
+/// The verdict on a call sequence depends on which names are EQUAL (and on commas), not on what they
+/// are: the same sequence with the names replaced by others that are substrings of one another, differ
+/// in case only, or are not ASCII must get the same verdict.
+fn renamed(calls: &[(String, Vec<String>, i64)], variant: usize) -> Vec<(String, Vec<String>, i64)> {
+    let map = |n: &String| -> String {
+        let t: [&str; 3] = match variant {
+            0 => ["t", "tau", "au"],
+            1 => ["Tau", "tau", "TAU"],
+            _ => ["\u{3c4}", "\u{3c4}\u{2081}", " \u{3c4}"],
+        };
+        match n.as_str() {
+            "a" => t[0].to_string(),
+            "b" => t[1].to_string(),
+            "z" => t[2].to_string(),
+            "a,b" => format!("{},{}", t[0], t[1]),
+            other => other.to_string(),
+        }
+    };
+    calls.iter().map(|(op, names, n)| (op.clone(), names.iter().map(map).collect(), *n)).collect()
+}
+
 fn judge<T: Sc>(idx: usize, l: &MbLine, rep: &mut Report) {
-    let r = catch_unwind(AssertUnwindSafe(|| replay::<T>(&l.c)));
-    let det = |what: &str, got: &str| json!({"line": idx, "scalar": T::NAME, "calls": l.c, "what": what, "got": got, "valid": l.v, "defects": l.d});
+    judge_calls::<T>(idx, l, &l.c, "", rep);
+    // renamed twins on a third of the sequences (each variant on a ninth)
+    if idx % 3 == 0 {
+        let v = (idx / 3) % 3;
+        let rc = renamed(&l.c, v);
+        judge_calls::<T>(idx, l, &rc, ["names t/tau/au", "names Tau/tau/TAU", "non-ASCII names"][v], rep);
+    }
+}
+
+fn judge_calls<T: Sc>(idx: usize, l: &MbLine, calls: &[(String, Vec<String>, i64)], twin: &str, rep: &mut Report) {
+    let r = catch_unwind(AssertUnwindSafe(|| replay::<T>(calls)));
+    let det = |what: &str, got: &str| json!({"line": idx, "scalar": T::NAME, "calls": calls, "renamed": twin, "what": what, "got": got, "valid": l.v, "defects": l.d});
     match r {
         Err(_) => rep.violation("C15", det("builder panicked", "panic")),
         Ok(Ok(panics)) => {
